@@ -19,7 +19,7 @@ from . import brewlib, c02
 ID = "C08"
 
 
-def _train(ctx, cfg, B, D, sizes, memo, sched):
+def _train(ctx, cfg, B, D, sizes, memo, sched, seed=42):
     import z3
     from symx import symnp, stubs, core
     from symx.core import SNum
@@ -47,7 +47,7 @@ def _train(ctx, cfg, B, D, sizes, memo, sched):
         return r
     D.OnDiskPsmDataset._split = rec_split
     B.update_labels = lambda fn, s_, tc, fdr: symnp.SArray([0] * len(s_), symnp.float64)
-    gen = symnp.Generator("seeded", memo=memo, seed=42)
+    gen = symnp.Generator("seeded", memo=memo, seed=seed)
     try:
         return dss, syms, log, split_rec, gen
     finally:
@@ -79,7 +79,8 @@ def sym(ctx, cfg):
             return PathOutcome([], inputs, None, "legit_exc", note=type(ex).__name__ + "(" + str(ex)[:40] + ")")
         D.OnDiskPsmDataset._split = real_split
         # run B
-        dssB, _, logB, splitB, genB = _train(ctx, cfg, B, D, sizes, memo, cfg["mode"] == "rerun")
+        # (other_seed: the models are fed back into a run under ANOTHER seed - every draw of run B is a fresh arbitrary one)
+        dssB, _, logB, splitB, genB = _train(ctx, cfg, B, D, sizes, memo, cfg["mode"] == "rerun", seed=43 if cfg.get("other_seed") else 42)
         if cfg["mode"] == "rerun":
             modelB = brewlib.StubModel(logB, decision_function=False)
         else:
@@ -98,7 +99,17 @@ def sym(ctx, cfg):
     finally:
         D.OnDiskPsmDataset._split = real_split
         stubs.MODE[0] = "submission"
-    props = [("same_fold_assignment", z3.BoolVal(splitA == splitB))]
+    if cfg.get("other_seed"):
+        # the seed may reorder the rows inside a fold, never move a PSM to another fold: the models that are fed
+        # back were trained on the complement of THEIR fold and must not meet their training PSMs
+        props = [("same_fold_membership_under_another_seed", z3.BoolVal([[sorted(f) for f in c] for c in splitA] == [[sorted(f) for f in c] for c in splitB]))]
+        heldout = True
+        for uid, rows in logA.get("predicts", []):
+            m = [mm for mm in modelsA if mm.uid == uid]
+            heldout = heldout and all(tuple(r) not in set(map(tuple, m[0].trained_on or [])) for r in rows) if m else heldout
+        props.append(("no_psm_scored_by_a_model_trained_on_it", z3.BoolVal(bool(heldout))))
+    else:
+        props = [("same_fold_assignment", z3.BoolVal(splitA == splitB))]
     for fid, (x, y) in enumerate(zip(scoresA, scoresB)):
         props.append(("file%d_score_count" % fid, z3.BoolVal(len(x) == len(y))))
         for i, (u, v) in enumerate(zip(x.items, y.items)):
@@ -361,7 +372,7 @@ def real_split_sessions(cfg, inp):
     return dict(outputs=None, violation=None)
 
 
-def harnesses(tier):
+def harnesses(tier, for_c02=False):
     from symx.runner import Harness
     B, D, P, U, T, Q = brewlib.setup()
     hs = []
@@ -403,6 +414,14 @@ def harnesses(tier):
         add("n=6,folds=3,cap=3,rerun same seed", dict(sizes=[6], folds=3, mode="rerun", cap=3, fixed_hash_order=True), 0.01)
         add("n=5,folds=3,models fed back in any order", dict(sizes=[5], folds=3, mode="feedback"), 0.01)
         add("n=3+3,folds=2,models fed back in any order", dict(sizes=[3, 3], folds=2, mode="feedback"), 0.01)
+    if for_c02:
+        # not a C08 obligation (C08 speaks of the SAME seed): fold membership must not depend on the seed at all, or fold
+        # models that are fed back (documented use) meet PSMs they were trained on - run by C02 and, as lemma L2, by C04
+        hs = []
+        if tier == "quick":
+            add("n=4,folds=2,models fed back into a run under another seed", dict(sizes=[4], folds=2, mode="feedback", other_seed=True))
+        else:
+            add("n=5,folds=3,models fed back into a run under another seed", dict(sizes=[5], folds=3, mode="feedback", other_seed=True), 0.01)
     return hs
 
 
@@ -417,7 +436,7 @@ def real_rerun(cfg, inp):
     folds = int(inp["folds"])
 
     import mokapot.dataset as Dm
-    seed_box = [42]
+    seed_box = [42, 0]
     splits = []
     orig_split = Dm.OnDiskPsmDataset._split
 
@@ -432,14 +451,14 @@ def real_rerun(cfg, inp):
             scan, mass = c02.realize_keys(rows, inp["hashes"][fid])
             p, df = brewlib.real_dataset(None, d, fid, dict(rows, scan=scan, mass=mass), "pm1")
             dss.append(mokapot.read_pin(p, max_workers=1)[0])
-        _, models, scores, _ = mokapot.brew(dss, model=model, test_fdr=1.0, folds=folds, max_workers=workers, rng=seed_box[0], subset_max_train=cfg.get("cap"))
+        _, models, scores, _ = mokapot.brew(dss, model=model, test_fdr=1.0, folds=folds, max_workers=workers, rng=seed_box[0] + seed_box[1], subset_max_train=cfg.get("cap"))
         return models, [np.asarray(s, dtype=float).tolist() for s in scores]
     Dm.OnDiskPsmDataset._split = rec_split
     try:
         v = dict(outputs=None, violation=None)
         for attempt in range(12 if cfg.get("_failed") else 1):  # an unseeded draw shows up only with some probability per pair of runs
             seed_box[0] = 42 + attempt // 2
-            v = _pair(cfg, inp, run, splits, folds)
+            v = _pair(cfg, inp, run, splits, folds, seed_box)
             if v.get("violation"):
                 return v
         return v
@@ -447,9 +466,11 @@ def real_rerun(cfg, inp):
         Dm.OnDiskPsmDataset._split = orig_split
 
 
-def _pair(cfg, inp, run, splits, folds):
+def _pair(cfg, inp, run, splits, folds, seed_box=None):
     import tempfile
     del splits[:]
+    if seed_box is not None:
+        seed_box[1] = 0
     with tempfile.TemporaryDirectory(prefix="verif_c08a_") as d1, tempfile.TemporaryDirectory(prefix="verif_c08b_") as d2:
         try:
             modelsA, scoresA = run(d1, c02._RealModel({}, False), 1)
@@ -461,10 +482,16 @@ def _pair(cfg, inp, run, splits, folds):
                 modelsB, scoresB = run(d2, c02._RealModel({}, False), 3)
             else:
                 order = inp.get("model_order") or list(range(folds))[::-1]
+                if cfg.get("other_seed") and seed_box is not None:
+                    seed_box[1] = 1000 + 7 * len(order)
                 modelsB, scoresB = run(d2, [modelsA[i] for i in order], 1)
         except Exception as ex:
             return dict(exception=repr(ex), violation="second run with the same seed raised %r" % (ex,))
-    if splits[:nA] != splits[nA:]:
+    if cfg.get("other_seed"):
+        memb = lambda cs: [[sorted(f) for f in c] for c in cs]
+        if memb(splits[:nA]) != memb(splits[nA:]):
+            return dict(violation="models fed back under another seed: the folds hold other PSMs than in the run that trained the models (%s vs %s), so fold models score PSMs they were trained on" % (splits[:nA], splits[nA:]))
+    elif splits[:nA] != splits[nA:]:
         return dict(violation="fold assignment differs between two runs with the same seed: %s vs %s" % (splits[:nA], splits[nA:]))
     if scoresA != scoresB:
         return dict(violation="%s: scores of the second run %s differ from the first run %s" % (inp["mode"], scoresB, scoresA))
